@@ -165,6 +165,10 @@ void AutomationMgr::setSlotSub(int slot_id, int par, float value)
         else if(v < mn)
             v = mn;
 
+        //on a log scale, bounds and control points are logarithms
+        if(au.map.control_scale == 1)
+            v = expf(v);
+
         rtosc_message(msg, 256, path, type == 'c' ? "c" : "i", (int)roundf(v));
     } else if(type == 'f') {
         float v = value*(b-a) + a;
